@@ -40,7 +40,7 @@ def t_instr_conds(oracle, tier, timeout=150, fn="t_instr", kinds=None):
     return conds
 
 
-def t_upd_conds(oracle, tier, kinds=None, timeout=240, dt_max=None):
+def t_upd_conds(oracle, tier, kinds=None, timeout=600, dt_max=None):
     conds = []
     env = {"VF_ORACLE": oracle}
     if dt_max is not None:
@@ -59,6 +59,11 @@ def t_upd_conds(oracle, tier, kinds=None, timeout=240, dt_max=None):
             Cond("vf.h.t_upd", "t_upd_reach", case=kind, timeout=60, env=dict(env), expect="refute",
                  label=f"T-upd-reach[{M.KIND_NAMES[kind]}]", weight=1)
         )
+        if kind == 9:
+            conds.append(
+                Cond("vf.h.t_upd", "t_upd", case=kind + 16, timeout=timeout, env=dict(env),
+                     label=f"T-upd[{M.KIND_NAMES[kind]},zero-length trip]", weight=20)
+            )
     return conds
 
 T_BOUNDS = [
